@@ -1,4 +1,5 @@
 CONSTANTS Conns <- C3
+  Dpid <- DpidDup
   I = 1
   TO = 2
   Late = 2
